@@ -212,9 +212,12 @@ def one(chk, repo, sp):
                 else:
                     chk.violation("C13.codes", h, f"except {'/'.join(types)}", "WSCloseCode.ABNORMAL_CLOSURE", f"{tag} an abnormal end of close() does not report close code 1006")
     chk.expect_count("C13.codes", nh, 2, f"error handlers in {cn}.close")
-    cm = [i for i in ast.walk(close.node) if isinstance(i, ast.If) and norm.raw(i.test) == "msg.type is WSMsgType.CLOSE"]
-    if cm and "msg.data" in " ".join(norm.raw(s) for s in cm[0].body) and any(isinstance(s, ast.Return) for s in cm[0].body):
-        chk.ok("C13.codes", cm[0], f"{tag} close(): a clean handshake reports the peer's code (msg.data)")
+    # the statement that takes the peer's code is reached only for a CLOSE message and is followed by the return of the clean exit
+    takes = [st for st in ast.walk(close.node) if isinstance(st, ast.stmt) and not isinstance(st, (ast.If, ast.While, ast.For, ast.Try, ast.With, ast.AsyncWith, ast.FunctionDef, ast.AsyncFunctionDef))
+             and "msg.data" in norm.raw(st) and PC.has_lit(PC.pc(st, raw=True), "msg.type is WSMsgType.CLOSE", True) is not None]
+    clean = [st for st in takes if any(isinstance(x, ast.Return) and x.lineno > st.lineno for x in (PC._block_of(st) or []))]
+    if clean:
+        chk.ok("C13.codes", clean[0], f"{tag} close(): a clean handshake reports the peer's code (msg.data)")
     else:
         chk.violation("C13.codes", close, "if msg.type is WSMsgType.CLOSE: <code = msg.data>; return True", "", f"{tag} the peer's close code is not reported")
     # ---- closewait (break a pending receive) -------------------------------------------------------------------------------
@@ -339,6 +342,26 @@ def hunt3(chk, repo, sp):
                 chk.violation("C13.wake", sub, K.short(sub), "if not self._closed: ...",
                               f"{tag} close() called while another task is parked in receive(): the woken receive() sets {sorted(_self_attrs_set(cls, [sub]) & shortcuts)}, close() then takes its `already closing` short cut - the transport is closed right after our CLOSE "
                               "without waiting for the peer's, and close_code reports 1000 for a handshake that never completed")
+    # ---- C13.flush: our CLOSE frame has left the write buffer before a close that discards unsent bytes --------------------------------------------
+    # The client closes through ResponseHandler.close(), which aborts the transport when unsent bytes remain (a graceful close would wait
+    # for ever on a peer that stopped reading).  The CLOSE frame queued behind older frames must therefore be flushed first, inside the
+    # close deadline - otherwise the peer sees a reset (1006) for a handshake this side reports as clean.
+    rh_close = repo.func("aiohttp/client_proto.py", "ResponseHandler.close")
+    discards = any(isinstance(c, ast.Call) and norm.raw(c.func).endswith("transport.abort") for c in ast.walk(rh_close.node))
+    if side == "client" and discards:
+        g = cfg_of(close.node)
+        sent = [n for n in g.nodes if K.node_has(n, "self._writer.close($C, $M)")]
+        rclose = [n for n in g.nodes if n.kind == "stmt" and K.node_has(n, "self._response.close()") and not list(prog.enclosing(n.ast, (ast.ExceptHandler,)))]
+        flushes = [n for n in g.nodes if any(isinstance(a, ast.Await) and isinstance(a.value, ast.Call) and isinstance(a.value.func, ast.Attribute) and a.value.func.attr in ("flush", "drain", "_drain_helper") for a in ast.walk(n.ast))]
+        if not sent or not rclose:
+            chk.analysis_error(f"C13.flush: {cn}.close(): the Close frame send / response close were not found")
+        else:
+            p = g.find_path(sent, lambda n: n in rclose, lambda n: n in flushes, EXPLICIT)
+            if p is None:
+                chk.ok("C13.flush", rclose[0].ast, f"{tag} close(): on every path from sending the Close frame to closing the response the write buffer is flushed (inside the close deadline)")
+            else:
+                chk.violation("C13.flush", rclose[0].ast, K.short(rclose[0].ast), "await self._writer.flush() before self._response.close()",
+                              f"{tag} close() closes the response right after queueing its CLOSE frame; ResponseHandler.close() aborts a transport with unsent bytes, so with a backlog of earlier frames the CLOSE (and the backlog) is thrown away: the peer ends with 1006 while this side reports a clean close", path=g.fmt_path(p))
     # ---- C13.timeout: the close budget is spent once: the phases of close() share one deadline ------------------------------------------------------
     scopes = [w for w in ast.walk(close.node) if isinstance(w, ast.AsyncWith) and K.timeout_budget(w, close.node) == sp["timeout_attr"]]
     if len(scopes) <= 1:
